@@ -1,2 +1,259 @@
-import PeptVerif.Model.CondenseMass
-/-! C18 property theorems (in progress) -/
+import PeptVerif.Lemmas.CondenseMass
+/-!
+# C18 — condensing modifications to mass shifts preserves the peptide
+
+Property theorems only. Model: `Model/CondenseMass.lean` — `condense_to_mass_mods` as the function is written after the two
+repairs in /repo (9295698, dc0999f); `condenseToMassAnn` is the annotation just before it is serialised, `shiftsOf` the
+numbers written, `render` the annotation carrying them. Every mass is a parameter (`Env`), so the theorems hold for ANY
+residue and modification weights.
+
+`condense_mass` is proved for annotations without an isotope label (both `mass` calls of every piece then take the fast
+path). With a label the per-piece difference goes through the composition calculator and the statement needs the
+agreement of the two calculators (C03) as a hypothesis; that case rests on the correspondence and on the oracle of the
+harness (see `notes/C18.md`).
+-/
+namespace Pept
+namespace C18
+open Static AbsMass CondenseMass
+
+/-- the function = condense the static rules, compute the numbers, render them -/
+theorem condenseToMassAnn_eq (E : Env) (a n : Annotation) (p : ℕ) (h : condenseToMassAnn E a p = .ok n) :
+    ∃ c s, condenseStatic a = .ok c ∧ shiftsOf E c p = .ok s ∧ n = render c s p := by
+  unfold condenseToMassAnn at h
+  cases hc : condenseStatic a with
+  | error e => simp [hc] at h
+  | ok c =>
+    simp only [hc] at h
+    cases hs : shiftsOf E c p with
+    | error e => simp [hs] at h
+    | ok s => simp only [hs, Except.ok.injEq] at h; exact ⟨c, s, rfl, hs, h.symm⟩
+
+/-! ### a concrete input used by the `example`s below (hypotheses are satisfiable, outputs are non-trivial) -/
+
+/-- every residue weighs 100, an integer modification its value, every named modification 42.0106, water 18 -/
+def exEnv : Env :=
+  { res := fun _ => 100, mu := fun v => match v with | .int i => i | .str _ => 420106 / 10000 | _ => 0, adj := 18,
+    aaComp := fun _ => [], modRes := fun _ => .bad, ionAdj := [], chargeComp := [], em := fun _ => 0 }
+
+/-- `<[Methyl]@E,C-Term>[10]-PEP[1][Acetyl]/2` -/
+def exA : Annotation :=
+  { seq := "PEP".toList, static := some [⟨.str "[Methyl]@E,C-Term".toList, 1⟩], nterm := some [⟨.int 10, 1⟩], internal := some [(2, [⟨.int 1, 1⟩, ⟨.str "Acetyl".toList, 1⟩])], charge := some 2 }
+
+/-- `[10]-PE[42.011]P[43.011]-[42.011]/2` at precision 3 -/
+def exOut : Annotation :=
+  { seq := "PEP".toList, nterm := some [⟨.int 10, 1⟩], cterm := some [⟨.flt "42.011".toList, 1⟩], internal := some [(1, [⟨.flt "42.011".toList, 1⟩]), (2, [⟨.flt "43.011".toList, 1⟩])], charge := some 2 }
+
+example : condenseToMassAnn exEnv exA 3 = .ok exOut := by decide +kernel
+example : serialize exOut true = "[+10]-PE[+42.011]P[+43.011]-[+42.011]/2".toList := by decide +kernel
+example : InRange exA ∧ exA.isotope = none ∧ (∀ i : ℤ, exEnv.mu (.int i) = i) ∧ exEnv.ionP = true :=
+  ⟨by unfold InRange; decide, rfl, fun _ => rfl, rfl⟩
+
+/-- **same residues** -/
+theorem condense_residues (E : Env) (a n : Annotation) (p : ℕ) (h : condenseToMassAnn E a p = .ok n) :
+    n.seq = a.seq := by
+  obtain ⟨c, s, hc, _, hn⟩ := condenseToMassAnn_eq E a n p h
+  subst hn
+  exact condenseStatic_seq a c hc
+
+/-- a numeric modification: an int or a float value, multiplier 1 -/
+def NumericMod (m : Mod) : Prop := m.mult = 1 ∧ ((∃ i, m.val = .int i) ∨ (∃ r, m.val = .flt r))
+
+theorem numeric_toMods (p : ℕ) (x : Num) : ∀ m ∈ x.toMods p, NumericMod m := by
+  intro m hm
+  simp only [Num.toMods, List.mem_singleton] at hm
+  subst hm
+  cases x with
+  | int i => exact ⟨rfl, Or.inl ⟨i, rfl⟩⟩
+  | dec k => exact ⟨rfl, Or.inr ⟨_, rfl⟩⟩
+
+/-- **numeric modifications only**: no global rule, no label, and every modification anywhere in the output is a number
+with multiplier 1 -/
+theorem condense_numeric_only (E : Env) (a n : Annotation) (p : ℕ) (h : condenseToMassAnn E a p = .ok n) :
+    n.static = none ∧ n.isotope = none ∧ ∀ m ∈ allMods n, NumericMod m := by
+  obtain ⟨c, s, _, _, hn⟩ := condenseToMassAnn_eq E a n p h
+  subst hn
+  refine ⟨rfl, rfl, ?_⟩
+  intro m hm
+  have hopt : ∀ o : Option Num, ∀ m ∈ (o.map (Num.toMods p)).getD [], NumericMod m := by
+    intro o m hm
+    cases o with
+    | none => simp at hm
+    | some x => exact numeric_toMods p x m (by simpa using hm)
+  simp only [allMods, render, List.mem_append] at hm
+  rcases hm with ((((hm | hm) | hm) | hm) | hm) | hm
+  · exact hopt _ m hm
+  · exact hopt _ m hm
+  · exact hopt _ m hm
+  · exact hopt _ m hm
+  · cases hi : s.intervals with
+    | none => simp [hi] at hm
+    | some l =>
+      simp only [hi, Option.map_some, Option.getD_some, List.mem_flatMap, List.mem_map] at hm
+      obtain ⟨iv, ⟨q, _, hq⟩, hm⟩ := hm
+      subst hq
+      exact hopt q.2 m hm
+  · cases hi : s.internal with
+    | nil => simp [hi] at hm
+    | cons x l =>
+      simp only [hi, Option.getD_some, List.mem_flatMap, List.mem_map] at hm
+      obtain ⟨e, ⟨q, _, hq⟩, hm⟩ := hm
+      subst hq
+      exact numeric_toMods p _ m hm
+
+/-- **an unmodified peptide is returned unchanged** (a charge state and adducts are not modifications and are kept) -/
+theorem condense_unmodified_id (E : Env) (sq : List Char) (ch : Option Int) (ad : Option (List Mod)) (p : ℕ) :
+    condenseToMassAnn E { seq := sq, charge := ch, adducts := ad } p = .ok { seq := sq, charge := ch, adducts := ad } := by
+  have hs := shiftsOf_nolabel E { seq := sq, charge := ch, adducts := ad } p rfl rfl
+  have hz : ∀ (l : List ℕ) (i : ℕ), shiftsFrom p (l.map fun j : ℕ => sumAt E none (j : ℕ)) i = [] := by
+    intro l
+    induction l with
+    | nil => intro i; rfl
+    | cons x l ih =>
+      intro i
+      have : ¬ absQ (sumAt E none (x : ℕ)) > threshold := by
+        simp only [sumAt, absQ_eq_abs, abs_zero]; exact not_lt.mpr (le_of_lt threshold_pos)
+      simp only [List.map_cons, shiftsFrom, if_neg this, ih]
+  simp only [condenseToMassAnn, condenseStatic, hs, render, diffsOf, hz, Option.map_none]
+
+/-- position lemma for the loop: a shift is written at index `i` only for a significant difference there -/
+theorem shiftsFrom_mem (p : ℕ) (ds : List ℚ) (start : ℕ) :
+    ∀ q ∈ shiftsFrom p ds start, ∃ j, j < ds.length ∧ q.1 = start + j ∧
+      ∃ d, ds[j]? = some d ∧ absQ d > threshold ∧ q.2 = roundNum d p := by
+  induction ds generalizing start with
+  | nil => intro q hq; simp [shiftsFrom] at hq
+  | cons d r ih =>
+    intro q hq
+    simp only [shiftsFrom] at hq
+    have hrest : q ∈ shiftsFrom p r (start + 1) → ∃ j, j < (d :: r).length ∧ q.1 = start + j ∧
+        ∃ d', (d :: r)[j]? = some d' ∧ absQ d' > threshold ∧ q.2 = roundNum d' p := by
+      intro h
+      obtain ⟨j, hj, hq1, d', hd', hg, hq2⟩ := ih (start + 1) q h
+      exact ⟨j + 1, by simp only [List.length_cons]; omega, by omega, d', by simpa using hd', hg, hq2⟩
+    split at hq
+    · rename_i hg
+      rcases List.mem_cons.mp hq with h | h
+      · subst h; exact ⟨0, by simp, by simp, d, by simp, hg, rfl⟩
+      · exact hrest h
+    · exact hrest hq
+
+/-- **shifts sit where the peptide was modified** (no isotope label in force; `c` is the annotation with its static rules
+written out, see C12 `condense_spec`): a residue shift is written only on a residue that carries modifications, it is the
+rounded total of the modifications listed there, and that total is nonzero; a terminal / labile / unknown-position shift
+is written exactly when the peptide has such modifications; the intervals keep their place. -/
+theorem condense_positions (E : Env) (a c : Annotation) (p : ℕ) (s : Shifts) (hiso : a.isotope = none)
+    (hc : condenseStatic a = .ok c) (hs : shiftsOf E c p = .ok s) :
+    (∀ q ∈ s.internal, q.1 < a.seq.length ∧ (∃ l, (((q.1 : ℕ) : Int), l) ∈ c.internal.getD []) ∧
+        sumAt E c.internal (q.1 : ℕ) ≠ 0 ∧ q.2 = roundNum (sumAt E c.internal (q.1 : ℕ)) p) ∧
+      s.nterm.isSome = c.nterm.isSome ∧ s.cterm.isSome = c.cterm.isSome ∧ s.labile.isSome = c.labile.isSome ∧
+      s.unknown.isSome = c.unknown.isSome ∧ s.intervals.map (fun l => l.map (·.1)) = c.intervals := by
+  have hciso : c.isotope = none := by
+    have := condenseStatic_isotope a c none hc
+    have ha : ({ a with isotope := none } : Annotation) = a := by cases a; simp_all
+    rw [ha, hc] at this
+    have := Except.ok.inj this
+    rw [this]
+  have hst := condenseStatic_static a c hc
+  rw [shiftsOf_nolabel E c p hciso hst] at hs
+  simp only [Except.ok.injEq] at hs
+  subst hs
+  refine ⟨?_, by cases c.nterm <;> rfl, by cases c.cterm <;> rfl, by cases c.labile <;> rfl, by cases c.unknown <;> rfl, ?_⟩
+  · intro q hq
+    obtain ⟨j, hj, hq1, d, hd, hg, hq2⟩ := shiftsFrom_mem p (diffsOf E c) 0 q hq
+    have hj' : j < c.seq.length := by simpa [diffsOf] using hj
+    have hqj : q.1 = j := by omega
+    have hdv : d = sumAt E c.internal (j : ℕ) := by
+      simp only [diffsOf, List.getElem?_map, List.getElem?_range hj', Option.map_some, Option.some.injEq] at hd
+      exact hd.symm
+    have hne : sumAt E c.internal (j : ℕ) ≠ 0 := by
+      intro h0
+      rw [hdv, h0, absQ_eq_abs, abs_zero] at hg
+      exact absurd hg (not_lt.mpr (le_of_lt threshold_pos))
+    refine ⟨by rw [hqj, ← condenseStatic_seq a c hc]; exact hj', ?_, by rw [hqj]; exact hne, by rw [hqj, hq2, hdv]⟩
+    rw [hqj]
+    cases hi : c.internal with
+    | none => simp [sumAt, hi] at hne
+    | some dct =>
+      simp only [sumAt, hi] at hne
+      cases hf : dct.filter (fun q => decide (q.1 = (j : Int))) with
+      | nil => rw [hf] at hne; simp [sumInternal] at hne
+      | cons x xs =>
+        have hx : x ∈ dct.filter (fun q => decide (q.1 = (j : Int))) := by rw [hf]; simp
+        rw [List.mem_filter] at hx
+        refine ⟨x.2, ?_⟩
+        have hk : x.1 = (j : Int) := by simpa using hx.2
+        simp only [Option.getD_some]
+        rw [← hk]; exact hx.1
+  · cases hi : c.intervals with
+    | none => rfl
+    | some l =>
+      simp only [Option.map_some, List.map_map]
+      congr 1
+      have : ∀ l : List Interval,
+          List.map ((fun x => x.1) ∘ fun iv : Interval => (iv, Option.map (fun l => roundedSum E l p) iv.mods)) l = l := by
+        intro l
+        induction l with
+        | nil => rfl
+        | cons x l ih => simp only [List.map_cons, Function.comp, ih]
+      exact this l
+
+/-- **mass preserved within the rounding precision.** For an annotation without isotope label whose residue-modification
+keys are positions of the sequence, ion type `p`, and any environment that weighs an integer modification by its value
+(what `mod_mass` does; residue and all other modification weights arbitrary): the mass of the output — residues, the
+numbers written, the same charge / ion-type term (`outMass`) — differs from the mass of the input by at most ½·10⁻ᵖ per number
+written, plus 10⁻⁶ per residue whose total modification mass is nonzero but below the function's own 10⁻⁶ cut-off (such a
+residue gets no shift). -/
+theorem condense_mass (E : Env) (a n : Annotation) (p : ℕ) (hiso : a.isotope = none) (hr : InRange a)
+    (hn : ∀ i : ℤ, E.mu (.int i) = i) (hp : E.ionP = true) (h : condenseToMassAnn E a p = .ok n) :
+    ∃ c s x, condenseStatic a = .ok c ∧ shiftsOf E c p = .ok s ∧ n = render c s p ∧ massOf E a = .ok x ∧
+      |outMass E c s p - x| ≤ (written c s : ℚ) * halfUlp p + (droppedNonzero (diffsOf E c) : ℚ) * threshold := by
+  obtain ⟨c, s, hc, hs, hn'⟩ := condenseToMassAnn_eq E a n p h
+  have hciso : c.isotope = none := by
+    have := condenseStatic_isotope a c none hc
+    have ha : ({ a with isotope := none } : Annotation) = a := by cases a; simp_all
+    rw [ha, hc] at this
+    have := Except.ok.inj this
+    rw [this]
+  have hst := condenseStatic_static a c hc
+  have hx : massOf E a = .ok (plainMass E c + E.adj) := by
+    have h1 : massOf E a = massFast E a := by simp [massOf, hiso]
+    have h2 := massFast_condense E a
+    rw [hc] at h2
+    have h3 : massFast E c = .ok (plainMass E c + E.adj) := by simp [massFast, hst]
+    rw [h1, ← h2]; exact h3
+  exact ⟨c, s, _, hc, hs, hn', hx, outMass_err E c p s hciso hst (inRange_condense a c hc hr) hn hp hs⟩
+
+/-- `outMass` is what `mass` returns for the output annotation in any environment that reads a written number as its value
+(`NumericMu`: ints as themselves, the text `decText k p` as `k / 10^p`) -/
+theorem condense_mass_output (E : Env) (c : Annotation) (s : Shifts) (p : ℕ) (hn : NumericMu E p) (hp : E.ionP = true) :
+    massOf E (render c s p) = .ok (outMass E c s p) := by
+  have : (render c s p).isotope = none := rfl
+  simp only [massOf, this]
+  exact massFast_render E c s p hn hp
+
+/-- the bound of the property text, `k · ½ · 10⁻ᵖ` with `k` the number of shifts written, under the exact extra hypothesis:
+no residue carries a nonzero total below the 10⁻⁶ cut-off -/
+theorem condense_mass_k (E : Env) (a n : Annotation) (p : ℕ) (hiso : a.isotope = none) (hr : InRange a)
+    (hn : ∀ i : ℤ, E.mu (.int i) = i) (hp : E.ionP = true) (h : condenseToMassAnn E a p = .ok n)
+    (hcut : ∀ c, condenseStatic a = .ok c → droppedNonzero (diffsOf E c) = 0) :
+    ∃ c s x, condenseStatic a = .ok c ∧ shiftsOf E c p = .ok s ∧ n = render c s p ∧ massOf E a = .ok x ∧
+      |outMass E c s p - x| ≤ (written c s : ℚ) * halfUlp p := by
+  obtain ⟨c, s, x, hc, hs, hn', hx, hb⟩ := condense_mass E a n p hiso hr hn hp h
+  refine ⟨c, s, x, hc, hs, hn', hx, ?_⟩
+  rw [hcut c hc] at hb
+  simpa using hb
+
+/-- the cut-off term of `condense_mass` is really there on the code as it is: a residue carrying +0.0000005 gets no shift
+at any precision, so the output is lighter by 5·10⁻⁷ although nothing was rounded (`k = 0`) -/
+theorem condense_mass_cutoff_witness :
+    shiftsFrom 8 [(5 : ℚ) / 10000000] 0 = [] ∧ droppedNonzero [(5 : ℚ) / 10000000] = 1 := by
+  constructor
+  · have : ¬ absQ ((5 : ℚ) / 10000000) > threshold := by
+      rw [absQ_eq_abs]; unfold threshold; rw [abs_of_pos (by norm_num)]; norm_num
+    simp [shiftsFrom, this]
+  · have : ¬ absQ ((5 : ℚ) / 10000000) > threshold := by
+      rw [absQ_eq_abs]; unfold threshold; rw [abs_of_pos (by norm_num)]; norm_num
+    have h5 : ((5 : ℚ) / 10000000) ≠ 0 := by norm_num
+    simp [droppedNonzero, this, h5]
+
+end C18
+end Pept
